@@ -144,6 +144,7 @@ pub fn frame_with_ac12(tc: u8, code: u16) -> Vec<u8> {
 }
 
 fn decode(f: &[u8]) -> Result<Message, String> {
+    set_case_bytes(13, f);
     match guarded(|| Message::try_from(f)) {
         Err(p) => Err(format!("panic: {p}")),
         Ok(Err(e)) => Err(format!("rejected: {e}")),
@@ -230,6 +231,7 @@ fn check_ac12(r: &RefAlt, tc: u8, code: u16) -> Option<(String, String)> {
 }
 
 fn check_gray(r: &RefAlt, g: u16) -> Option<(String, String)> {
+    set_case(13, g as u64, 1, 0);
     let got = match guarded(|| gray2alt(g)) {
         Err(p) => return Some(("gray2alt:panic".into(), format!("gray2alt({g:#06x}) panicked: {p}"))),
         Ok(v) => v.ok(),
@@ -244,6 +246,7 @@ fn check_gray(r: &RefAlt, g: u16) -> Option<(String, String)> {
 }
 
 fn check_id(code: u16) -> Option<(String, String)> {
+    set_case(13, code as u64, 2, 0);
     let got = match guarded(|| decode_id13(code)) {
         Err(p) => return Some(("id13:panic".into(), format!("decode_id13({code:#06x}) panicked: {p}"))),
         Ok(v) => v,
